@@ -1,11 +1,15 @@
 """C09 - HTTP stream reassembly is invariant to segmentation, sequence origin and order.
 
-Structural clauses decided (DESIGN.md §5 C09):
+Structural clauses decided:
  R1 segments are ordered by a wrap-aware (modular) comparison of sequence numbers
  R2 concatenation is guarded by a contiguity test (segment sequence vs. expected next sequence)
- R3 a message is reported only while its parsed flag is clear, and the flag is set with the report
- R4 requests are parsed only from the stored client endpoint's bytes, responses only from the server endpoint's
- R5 a flow is created only on a SYN for an untracked connection; payload is stored with this segment's sequence number
+ R3 a message is reported only while its parsed flag is clear, and the flag is set with the report; `incomplete` is decided by the
+    absence of a blank line in the reassembled bytes; pre-check and parser both look at the reassembled stream
+ R4 requests are parsed only from the stored client endpoint's bytes, responses only from the server endpoint's; reported
+    endpoints pair address and port of one side
+ R5 a flow is created only on a SYN for an untracked connection; payload is stored with this segment's sequence number; the
+    stored bytes are the IP payload
+ C07.R2/R3 a finished flow is removed under the key it is stored with
 """
 from ..engine import cfg as C
 from ..engine import q as Q
